@@ -258,6 +258,19 @@ def finish(prop_id, prop, tier, master_seed, tasks, summaries, skipped, harness_
                 known_hits.append((hit, v, s["task"]))
             else:
                 violations.append((v, s["task"]))
+    analysis_coverage = {}
+    if hasattr(prop, "analyse") and not harness_errors:
+        extra, analysis_coverage = prop.analyse(summaries)
+        for v, task in extra:
+            hit = None
+            for finding in known.get("findings", []):
+                if matches_finding(finding, prop_id, v, task):
+                    hit = finding
+                    break
+            if hit is not None:
+                known_hits.append((hit, v, task))
+            else:
+                violations.append((v, task))
     exit_code = 0
     printed = set()
     for hit, v, task in known_hits:
@@ -315,6 +328,8 @@ def finish(prop_id, prop, tier, master_seed, tasks, summaries, skipped, harness_
     }
     if hasattr(prop, "extra_coverage"):
         coverage.update(prop.extra_coverage(summaries))
+    if analysis_coverage:
+        coverage["analysis"] = analysis_coverage
     evidence = {
         "property_id": prop_id,
         "tier": tier,
